@@ -52,6 +52,15 @@ func (m *Mint) checkInvoicePaid(ctx context.Context, quoteId string) {
 	select {
 	case invoice := <-updateChan:
 		if invoice.Settled {
+			m.mintQuoteMu.Lock()
+			defer m.mintQuoteMu.Unlock()
+			// the quote might have been marked as paid (and even issued) already
+			// by a state check. Only an UNPAID quote can move to PAID.
+			currentQuote, err := m.db.GetMintQuote(quoteId)
+			if err != nil || currentQuote.State != nut04.Unpaid {
+				return
+			}
+
 			m.logInfof("received update from invoice sub. Invoice for mint quote '%v' is PAID", mintQuote.Id)
 			mintQuote.State = nut04.Paid
 			if err := m.db.UpdateMintQuoteState(mintQuote.Id, mintQuote.State); err != nil {
